@@ -1,3 +1,627 @@
-/- C15: property theorems (stub, not yet built) -/
+/-
+C15 — Drift is reported for drift-relevant changes and never self-inflicted.
+
+Property theorems only (lemmas: `Karp/Proofs/HashLemmas.lean`, `Karp/Proofs/DriftLemmas.lean`).
+Model: `Karp/Model/Hash.lean` (`NodePool.Hash()` = the hashstructure walk over `v1.NodeClaimTemplate`, field table
+regenerated from the Go source), `Karp/Model/Drift.lean` (`areStaticFieldsDrifted`, `areRequirementsDrifted`,
+`instanceTypeNotFound`, `isDrifted`, `Drift.Reconcile`, the nodepool/hash controller, `PopulateNodeClaimDetails`).
+Spec: `Karp/Spec/DriftSpec.lean` (which NodePools must share a hash; when a NodeClaim must / may be Drifted, with the
+Kubernetes node-selector semantics).
+-/
+import Karp.Proofs.HashLemmas
+import Karp.Proofs.DriftLemmas
+import Karp.Model.Template
+
 namespace Karp.C15
+open Karp.Hash Karp.Drift Karp.Req Karp.Spec.K8s Karp.Spec.DriftSpec
+
+/-! ## Fact expectations over the regenerated tables -/
+
+/-- `NodePool.Hash()` hashes `in.Spec.Template` and nothing else -/
+theorem fact_hashed_expr : Karp.Gen.C15Hash.hashedExpr = "in.Spec.Template" := by decide
+
+/-- lists are hashed as sets, zero values are skipped, nil pointers are zero values; FormatV2 -/
+theorem fact_hash_options :
+    Karp.Gen.C15Hash.hashOptions = [("IgnoreZeroValue", "true"), ("SlicesAsSets", "true"), ("ZeroNil", "true")] ∧
+    Karp.Gen.C15Hash.hashFormat = "hashstructure.FormatV2" := by decide
+
+/-- no type below the template overrides hashing (Hashable / Includable / IncludableMap) -/
+theorem fact_no_custom_hashers : Karp.Gen.C15Hash.customHashers = [] := by decide
+
+/-- the fields tagged `hash:"ignore"` / `"-"` below `v1.NodeClaimTemplate` -/
+def ignoredFields : List (String × String) :=
+  Karp.Gen.C15Hash.structs.flatMap (fun (_, short, fields) =>
+    (fields.filter (fun (_, _, tag, _) => tag == "ignore" || tag == "-")).map (fun (name, _, _, _) => (short, name)))
+
+/-- **exactly the documented field is ignored**: `requirements` (and the raw spelling of `expireAfter`, which is not a
+    separate API field).  A missing or an additional `hash:"ignore"` tag fails here. -/
+theorem fact_ignored_fields :
+    ignoredFields = [("NodeClaimTemplateSpec", "Requirements"), ("NillableDuration", "Raw")] := by decide
+
+/-- no other tag (`set`, `string`) and no unexported field occurs -/
+theorem fact_only_ignore_tags :
+    Karp.Gen.C15Hash.structs.all (fun (_, _, fields) => fields.all (fun (_, _, tag, exported) =>
+      (tag == "" || tag == "ignore") && exported)) = true := by decide
+
+/-- **the hashed field set** (type name as hashed, then every field in declaration order with its type and tag).  A
+    new, removed, renamed, retyped or reordered field of any struct below the template fails here (and the hash version
+    must then be bumped, see the comment on `NodePoolHashVersion`): the pair (field set, version) is pinned together.
+    The only collections are the two maps and the two taint lists — what "reordering" can touch. -/
+theorem fact_hashed_field_set :
+    Karp.Gen.C15Hash.hashVersion = "v3" ∧
+    Karp.Gen.C15Hash.structs.map (fun (_, short, fields) => (short, fields.map (fun (name, ty, tag, _) => (name, ty, tag)))) =
+    [("NodeClaimTemplate", [("ObjectMeta", "v1.ObjectMeta", ""), ("Spec", "v1.NodeClaimTemplateSpec", "")]),
+     ("ObjectMeta", [("Labels", "map[string]string", ""), ("Annotations", "map[string]string", "")]),
+     ("NodeClaimTemplateSpec", [("Taints", "[]v1.Taint", ""), ("StartupTaints", "[]v1.Taint", ""),
+        ("Requirements", "[]v1.NodeSelectorRequirementWithMinValues", "ignore"), ("NodeClassRef", "*v1.NodeClassReference", ""),
+        ("TerminationGracePeriod", "*v1.Duration", ""), ("ExpireAfter", "v1.NillableDuration", "")]),
+     ("Taint", [("Key", "string", ""), ("Value", "string", ""), ("Effect", "v1.TaintEffect", ""), ("TimeAdded", "*v1.Time", "")]),
+     ("Time", [("Time", "time.Time", "")]),
+     ("NodeClassReference", [("Kind", "string", ""), ("Name", "string", ""), ("Group", "string", "")]),
+     ("Duration", [("Duration", "time.Duration", "")]),
+     ("NillableDuration", [("Duration", "*time.Duration", ""), ("Raw", "[]byte", "ignore")])] := by decide
+
+/-- budgets, limits, weight, consolidation settings (and replicas) are fields of `NodePoolSpec` next to `Template`,
+    hence outside the hashed expression -/
+theorem fact_non_drifting_fields_outside_template :
+    Karp.Gen.C15Hash.nodePoolSpecFields.map (·.1) = ["Template", "Disruption", "Limits", "Weight", "Replicas"] ∧
+    Karp.Gen.C15Hash.disruptionFields.map (·.1) = ["ConsolidateAfter", "ConsolidationPolicy", "Budgets"] := by decide
+
+/-- the order of the checks in `isDrifted`: static hash, requirements, instance types, provider -/
+theorem fact_isDrifted_order :
+    Karp.Gen.C15Drift.isDriftedCalls =
+      ["areStaticFieldsDrifted", "areRequirementsDrifted", "GetInstanceTypes", "instanceTypeNotFound", "IsDrifted"] := by decide
+
+/-- the hash controller migrates the NodeClaims before it rewrites the NodePool's own annotations -/
+theorem fact_hash_controller_order :
+    Karp.Gen.C15Drift.hashReconcileCalls = ["updateNodeClaimHash", "Hash", "Patch"] ∧
+    Karp.Gen.C15Drift.updateNodeClaimHashCalls = ["ListManaged", "Get", "Hash", "Patch"] := by decide
+
+/-- a drift reason is never the empty string (which `isDrifted` uses for "not drifted") and the three are distinct -/
+theorem fact_reasons :
+    Karp.Gen.C15Drift.reasonNodePoolDrifted ≠ "" ∧ Karp.Gen.C15Drift.reasonRequirementsDrifted ≠ "" ∧
+    Karp.Gen.C15Drift.reasonInstanceTypeNotFound ≠ "" ∧
+    Karp.Gen.C15Drift.reasonNodePoolDrifted ≠ Karp.Gen.C15Drift.reasonRequirementsDrifted ∧
+    Karp.Gen.C15Drift.conditionDrifted = "Drifted" ∧ Karp.Gen.C15Drift.conditionLaunched = "Launched" := by decide
+
+variable {U : Type}
+
+/-! ## The hash: invariance -/
+
+/-- **C15_order_insensitive** — reordering the labels, the annotations, the taints and the startup taints of a template
+    (any permutation of each, all four at once) leaves the hash unchanged; for every template, every hash primitive set
+    with a commutative and associative `xor` (in particular the FNV instance that reproduces the real value). -/
+theorem C15_order_insensitive (P : Prims U) (hL : Lawful P) (a b : Template) (h : SameUpToOrder a b)
+    (hreq : a.requirements = b.requirements) (hraw : a.expireAfterRaw = b.expireAfterRaw) :
+    hashTemplate P a = hashTemplate P b := by
+  apply hash_invariant P hL a b h
+  · simp only [Template.specIsZero, h.taints.isNone_eq, h.startupTaints.isNone_eq, hreq, h.nodeClassRef, h.tgp,
+      h.expireAfter, hraw]
+  · right; rw [hraw]
+
+/-- **C15_ignored (requirements)** — for a template with a node class reference (required by the CRD), replacing the
+    requirements by ANY other requirement list (also nil ↔ non-nil) leaves the hash unchanged. -/
+theorem C15_ignored_requirements (P : Prims U) (hL : Lawful P) (t : Template) (r : Option (List Sel))
+    (href : t.nodeClassRef.isSome = true) :
+    hashTemplate P { t with requirements := r } = hashTemplate P t := by
+  apply hash_invariant P hL
+  · exact ⟨OptPerm.refl _, OptPerm.refl _, OptPerm.refl _, OptPerm.refl _, rfl, rfl, rfl⟩
+  · cases hr : t.nodeClassRef with
+    | none => rw [hr] at href; simp at href
+    | some x => simp [Template.specIsZero, hr]
+  · right; rfl
+
+/-- **C15_ignored (spelling of expireAfter)** — with a duration set, the raw text it was written as ("720h",
+    "43200m", "720h0m0s") does not matter. -/
+theorem C15_ignored_raw (P : Prims U) (hL : Lawful P) (t : Template) (raw : Option String)
+    (hd : t.expireAfter.isSome = true) :
+    hashTemplate P { t with expireAfterRaw := raw } = hashTemplate P t := by
+  apply hash_invariant P hL
+  · exact ⟨OptPerm.refl _, OptPerm.refl _, OptPerm.refl _, OptPerm.refl _, rfl, rfl, rfl⟩
+  · cases he : t.expireAfter with
+    | none => rw [he] at hd; simp at hd
+    | some x => simp [Template.specIsZero, he]
+  · left; exact hd
+
+/-- **C15_ignored (outside the template)** — budgets, limits, weight, consolidateAfter / consolidationPolicy, replicas
+    and the NodePool's own metadata never reach the hash: it is a function of `spec.template` alone. -/
+theorem C15_ignored_outside (P : Prims U) (p : Pool) (o : Outside) :
+    poolHash P { p with outside := o } = poolHash P p := rfl
+
+/-- **C15_spec_must_equal** (the specification's "must be equal" verdict is met by the model, for all NodePools):
+    whenever the property text demands equal hashes — valid templates that differ only in the order of lists / maps,
+    in `requirements`, in the spelling of `expireAfter`, and in anything outside the template — the hashes are equal. -/
+theorem C15_spec_must_equal (P : Prims U) (hL : Lawful P) (a b : Pool)
+    (h : fingerprintVerdict a b = .mustEqual) : poolHash P a = poolHash P b := by
+  unfold fingerprintVerdict at h
+  split at h
+  · cases h
+  · rename_i hvalid
+    split at h
+    · rename_i hsame
+      split at h
+      · rename_i hrepr
+        simp only [Bool.not_and, Bool.or_eq_true, Bool.not_eq_true', not_or, Bool.not_eq_false] at hvalid
+        obtain ⟨hva, hvb⟩ := hvalid
+        simp only [validTemplate, Bool.and_eq_true] at hva hvb
+        simp only [sameUpToOrder, Bool.and_eq_true, beq_iff_eq] at hsame
+        simp only [sameRepresentation, Bool.and_eq_true] at hrepr
+        obtain ⟨⟨⟨⟨⟨⟨hl, han⟩, ht⟩, hst⟩, href⟩, htgp⟩, hexp⟩ := hsame
+        obtain ⟨⟨⟨rl, ran⟩, rt⟩, rst⟩ := hrepr
+        have hS : SameUpToOrder a.template b.template :=
+          ⟨isPerm_optPerm _ _ hl rl, isPerm_optPerm _ _ han ran, isPerm_optPerm _ _ ht rt, isPerm_optPerm _ _ hst rst,
+            href, htgp, hexp⟩
+        unfold poolHash
+        apply hash_invariant P hL _ _ hS
+        · have ha : a.template.nodeClassRef.isSome = true := hva.1.1.1.1
+          have hb : b.template.nodeClassRef.isSome = true := hvb.1.1.1.1
+          cases hra : a.template.nodeClassRef <;> cases hrb : b.template.nodeClassRef <;> simp_all [Template.specIsZero]
+        · right
+          have ha : (a.template.expireAfter.isSome == a.template.expireAfterRaw.isSome) = true := hva.1.1.1.2
+          have hb : (b.template.expireAfter.isSome == b.template.expireAfterRaw.isSome) = true := hvb.1.1.1.2
+          rw [hexp] at ha
+          cases hx : a.template.expireAfterRaw <;> cases hy : b.template.expireAfterRaw <;>
+            cases hz : b.template.expireAfter <;> simp_all
+      · cases h
+    · cases h
+
+/-! ## The hash: sensitivity
+
+Full statement (what the property demands): *any* change of a non-ignored template field changes the hash.  For a
+64-bit hash this can only hold up to collisions; proved is the structural part — with collision-free primitives
+(`CollisionFree`, the named hypothesis) a change of the value hash of ONE hashed field, the others unchanged, is never
+masked or cancelled by the walk (this is what `hashFinishUnordered` after every field is for).  That a changed field
+value changes its own value hash is again collision-freeness, except for the taint lists: they are XOR-folded, so
+duplicates cancel (`C15_duplicates_cancel` below — excluded by runtime validation: a taint (key, effect) occurs once). -/
+
+inductive Field | labels | annotations | taints | startupTaints | nodeClassRef | tgp | expireAfter
+deriving DecidableEq, Repr
+
+/-- the value hash of each hashed field (`none` = zero value, the field is skipped) -/
+def leaf (P : Prims U) (t : Template) : Field → Option U
+  | .labels => hMap P t.labels
+  | .annotations => hMap P t.annotations
+  | .taints => hTaints P t.taints
+  | .startupTaints => hTaints P t.startupTaints
+  | .nodeClassRef => hRef P t.nodeClassRef
+  | .tgp => hTGP P t.tgp
+  | .expireAfter => hExpire P t.expireAfter t.expireAfterRaw
+
+/-- **C15_sensitive_partial** — for collision-free primitives: if two templates have the same shape (the same fields
+    are zero), the value hash of exactly one hashed field `f` differs and the value hashes of all others agree, then
+    the template hashes differ.  For every template pair and every one of the seven hashed fields. -/
+theorem C15_sensitive_partial (P : Prims U) (hL : Lawful P) (hC : CollisionFree P) (a b : Template) (f : Field)
+    (hshape : ∀ g, (leaf P a g).isSome = (leaf P b g).isSome)
+    (hmz : a.metaIsZero = b.metaIsZero) (hsz : a.specIsZero = b.specIsZero)
+    (hothers : ∀ g, g ≠ f → leaf P a g = leaf P b g)
+    (hdiff : leaf P a f ≠ leaf P b f) : hashTemplate P a ≠ hashTemplate P b := by
+  intro heq
+  apply hdiff
+  rw [hashTemplate_eq, hashTemplate_eq] at heq
+  have hl := hothers .labels; have han := hothers .annotations; have ht := hothers .taints
+  have hst := hothers .startupTaints; have hr := hothers .nodeClassRef; have hg := hothers .tgp
+  have he := hothers .expireAfter
+  simp only [leaf] at hl han ht hst hr hg he
+  have sl := hshape .labels; have san := hshape .annotations; have st := hshape .taints
+  have sst := hshape .startupTaints; have sr := hshape .nodeClassRef; have sg := hshape .tgp
+  have se := hshape .expireAfter
+  simp only [leaf] at sl san st sst sr sg se
+  by_cases hmeta : f = .labels ∨ f = .annotations
+  · -- the Spec field agrees: peel it, then look inside ObjectMeta
+    have hspec : hSpec P a = hSpec P b := by
+      rw [hSpec_eq, hSpec_eq, hsz]
+      rw [ht (by rcases hmeta with h | h <;> simp [h]), hst (by rcases hmeta with h | h <;> simp [h]),
+        hr (by rcases hmeta with h | h <;> simp [h]), hg (by rcases hmeta with h | h <;> simp [h]),
+        he (by rcases hmeta with h | h <;> simp [h])]
+    rw [hspec] at heq
+    have h1 := inc_acc_inj hL hC _ _ _ _ heq
+    rw [hMeta_eq, hMeta_eq, hmz] at h1
+    by_cases hz : b.metaIsZero = true
+    · -- both maps nil on both sides: nothing differs
+      have hza : a.metaIsZero = true := by rw [hmz]; exact hz
+      simp only [Template.metaIsZero, Bool.and_eq_true, Option.isNone_iff_eq_none] at hz hza
+      rcases hmeta with h | h <;> subst h <;> simp [leaf, hz.1, hz.2, hza.1, hza.2]
+    · simp only [hz] at h1
+      have h2 := inc_val_inj hC _ _ _ _ h1
+      rcases hmeta with h | h <;> subst h
+      · rw [han (by simp)] at h2
+        have h3 := inc_acc_inj hL hC _ _ _ _ h2
+        exact inc_opt_inj hC _ _ _ _ sl h3
+      · rw [hl (by simp)] at h2
+        exact inc_opt_inj hC _ _ _ _ san h2
+  · -- ObjectMeta agrees: peel to the Spec struct
+    have hmeta' : hMeta P a = hMeta P b := by
+      rw [hMeta_eq, hMeta_eq, hmz, hl (by intro h; exact hmeta (Or.inl h.symm)),
+        han (by intro h; exact hmeta (Or.inr h.symm))]
+    rw [hmeta'] at heq
+    rw [hSpec_eq, hSpec_eq, hsz] at heq
+    by_cases hz : b.specIsZero = true
+    · have hza : a.specIsZero = true := by rw [hsz]; exact hz
+      simp only [Template.specIsZero, Bool.and_eq_true, Option.isNone_iff_eq_none] at hz hza
+      obtain ⟨⟨⟨⟨⟨⟨z1, z2⟩, _⟩, z4⟩, z5⟩, z6⟩, z7⟩ := hz
+      obtain ⟨⟨⟨⟨⟨⟨y1, y2⟩, _⟩, y4⟩, y5⟩, y6⟩, y7⟩ := hza
+      cases f <;> simp [leaf, z1, z2, z4, z5, z6, z7, y1, y2, y4, y5, y6, y7, hExpire_eq] at hmeta ⊢
+    · simp only [hz] at heq
+      have h1 := inc_val_inj hC _ _ _ _ heq
+      cases f with
+      | labels => exact absurd (Or.inl rfl) hmeta
+      | annotations => exact absurd (Or.inr rfl) hmeta
+      | expireAfter =>
+        rw [ht (by simp), hst (by simp), hr (by simp), hg (by simp)] at h1
+        exact inc_opt_inj hC _ _ _ _ se h1
+      | tgp =>
+        rw [ht (by simp), hst (by simp), hr (by simp), he (by simp)] at h1
+        have h2 := inc_acc_inj hL hC _ _ _ _ h1
+        exact inc_opt_inj hC _ _ _ _ sg h2
+      | nodeClassRef =>
+        rw [ht (by simp), hst (by simp), hg (by simp), he (by simp)] at h1
+        have h2 := inc_acc_inj hL hC _ _ _ _ (inc_acc_inj hL hC _ _ _ _ h1)
+        exact inc_opt_inj hC _ _ _ _ sr h2
+      | startupTaints =>
+        rw [ht (by simp), hr (by simp), hg (by simp), he (by simp)] at h1
+        have h2 := inc_acc_inj hL hC _ _ _ _ (inc_acc_inj hL hC _ _ _ _ (inc_acc_inj hL hC _ _ _ _ h1))
+        exact inc_opt_inj hC _ _ _ _ sst h2
+      | taints =>
+        rw [hst (by simp), hr (by simp), hg (by simp), he (by simp)] at h1
+        have h2 := inc_acc_inj hL hC _ _ _ _ (inc_acc_inj hL hC _ _ _ _ (inc_acc_inj hL hC _ _ _ _
+          (inc_acc_inj hL hC _ _ _ _ h1)))
+        exact inc_opt_inj hC _ _ _ _ st h2
+
+/-! ### Boundaries of the invariance theorems (machine-checked on the FNV instance = the real hash values)
+
+These are consequences of `IgnoreZeroValue` / XOR set hashing, all replayed on the real `NodePool.Hash()` by the
+correspondence op `c15.hash` (corpus `c15.hash/*`). -/
+
+set_option maxRecDepth 8000
+
+def wRef : NodeClassRef := { kind := "TestNodeClass", name := "default", group := "karpenter.test.sh" }
+def wTaint : Taint := { key := "dedicated", value := "a", effect := "NoSchedule" }
+def wSel : Sel := { key := "team", op := .in_, values := ["a"], minValues := none }
+
+/-- XOR set hashing: a taint repeated an odd number of times hashes like a single occurrence, an even number of times
+    like an empty (non-nil) list.  Excluded by runtime validation (a taint (key, effect) pair occurs once). -/
+theorem C15_duplicates_cancel :
+    hashTemplate fnvPrims { nodeClassRef := some wRef, taints := some [wTaint, wTaint, wTaint] } =
+      hashTemplate fnvPrims { nodeClassRef := some wRef, taints := some [wTaint] } ∧
+    hashTemplate fnvPrims { nodeClassRef := some wRef, taints := some [wTaint, wTaint] } =
+      hashTemplate fnvPrims { nodeClassRef := some wRef, taints := some [] } := by decide
+
+/-- a nil list and an empty list hash differently (the specification leaves this pair unspecified) -/
+theorem C15_nil_vs_empty :
+    hashTemplate fnvPrims { nodeClassRef := some wRef, taints := none } ≠
+      hashTemplate fnvPrims { nodeClassRef := some wRef, taints := some [] } := by decide
+
+/-- without a node class reference (forbidden by the CRD) the `Spec` field can be all-zero, and then the IGNORED
+    requirements decide whether it is skipped: `C15_ignored_requirements` needs its hypothesis. -/
+theorem C15_ignored_needs_nodeClassRef :
+    hashTemplate fnvPrims { requirements := some [wSel] } ≠ hashTemplate fnvPrims { requirements := none } := by decide
+
+/-! ## Drift: the three predicates -/
+
+/-- **C15_static_drift** — `areStaticFieldsDrifted` reports drift exactly when both objects carry both annotations, the
+    hash versions agree and the hashes differ ("its hash differs under the same hash version"). -/
+theorem C15_static_drift (np nc : Ann) :
+    staticDrifted np nc = true ↔
+      ∃ ph pv ch cv, np.hash = some ph ∧ np.version = some pv ∧ nc.hash = some ch ∧ nc.version = some cv ∧
+        pv = cv ∧ ph ≠ ch := by
+  unfold staticDrifted
+  cases hph : np.hash <;> cases hpv : np.version <;> cases hch : nc.hash <;> cases hcv : nc.version <;> simp
+
+theorem C15_static_drift_spec (np nc : Ann) :
+    staticDrifted np nc = hashDiffersUnderSameVersion np.hash np.version nc.hash nc.version := rfl
+
+/-- a NodeClaim stamped with the NodePool's own annotations is never statically drifted -/
+theorem C15_same_annotations_not_drifted (a : Ann) : staticDrifted a a = false := by
+  unfold staticDrifted
+  cases a.hash <;> cases a.version <;> simp
+
+theorem normalizeKey_of_not_alias (k : String) (h : aliasKey k = false) : normalizeKey k = k := by
+  unfold aliasKey at h
+  unfold normalizeKey
+  cases hl : Karp.Gen.Labels.normalizedLabels.lookup k with
+  | none => rfl
+  | some x => rw [hl] at h; simp at h
+
+/-- the executable `readable` of the specification (what the driver evaluates on the implementation's observations)
+    gives the `Readable` hypothesis of the theorems below, for labels that form a map -/
+theorem C15_readable_of_spec (sels : List Sel) (labels : Karp.Drift.Labels) (h : readable sels labels = true)
+    (hnd : (labels.map (·.1)).Nodup) : Readable sels labels := by
+  unfold readable at h
+  simp only [Bool.and_eq_true, List.all_eq_true, Bool.not_eq_true'] at h
+  obtain ⟨hs, hl⟩ := h
+  refine ⟨?_, ?_, ?_, hnd⟩
+  · intro s hsm
+    obtain ⟨⟨h1, _⟩, h3⟩ := hs s hsm
+    unfold validSel
+    rw [h1]
+    simp only [Bool.true_and, Bool.not_eq_true']
+    exact h3
+  · intro s hsm; exact normalizeKey_of_not_alias _ (hs s hsm).1.2
+  · intro kv hkv; exact normalizeKey_of_not_alias _ (hl kv hkv)
+
+/-- **C15_no_false_requirements_drift** (never self-inflicted, requirement part) — whenever the NodeClaim's labels
+    satisfy every requirement expression of the NodePool under the Kubernetes node-selector semantics,
+    `areRequirementsDrifted` reports no drift.  For all requirement lists (any number of expressions per key, all eight
+    operators) and all label sets, under `Readable` (validated operands, no deprecated alias keys, labels a map). -/
+theorem C15_no_false_requirements_drift (sels : List Sel) (labels : Karp.Drift.Labels) (hr : Readable sels labels)
+    (hsat : labelsSatisfy sels labels = true) : requirementsDrifted sels labels = .ok false :=
+  not_drifted_of_satisfy sels labels hr hsat
+
+/-- Full statement (what the property demands): for every readable requirement list and label set,
+
+      labelsSatisfy sels labels = false → requirementsDrifted sels labels = .ok true.
+
+    It is false for the code as it is (`C15_drift_missed_*` below; replayed on the real disruption controller, recorded
+    in known_findings.json).  Proved:
+
+    **C15_drift_detects_partial** — if some requirement expression is violated by the NodeClaim's labels, drift IS
+    reported whenever the violated expression's label is present on the NodeClaim; and also when it is absent, provided
+    the requirement representation is `Faithful` for the NodePool's requirement list (it is whenever each key carries
+    one expression; it fails exactly for the two recorded classes). -/
+theorem C15_drift_detects_partial (sels : List Sel) (labels : Karp.Drift.Labels) (hr : Readable sels labels)
+    (s : Sel) (hs : s ∈ sels) (hviol : k8sMatch s.op s.values (labels.lookup s.key) = false)
+    (hcase : (labels.lookup s.key).isSome = true ∨ Faithful sels) :
+    requirementsDrifted sels labels = .ok true := by
+  obtain ⟨b, hb⟩ := requirementsDrifted_ok sels labels (fun x hx => validOperands_of_validSel x (hr.valid x hx))
+  cases b with
+  | true => exact hb
+  | false =>
+    have := satisfy_of_not_drifted sels labels hr hb s hs hcase
+    rw [hviol] at this; cases this
+
+/-- **C15_drift_detects_one_expression_per_key** — for a NodePool that constrains every key with ONE expression (the
+    overwhelmingly common shape; any of the eight operators, `Gt MaxInt` / `Lt MinInt` excepted) requirement drift is
+    detected completely: the NodeClaim is reported drifted if AND ONLY IF its labels violate some requirement expression
+    under the Kubernetes semantics. -/
+theorem C15_drift_detects_one_expression_per_key (sels : List Sel) (labels : Karp.Drift.Labels) (hr : Readable sels labels)
+    (hx : ∀ s ∈ sels, noExtreme s = true) (hnd : (sels.map (fun s => normalizeKey s.key)).Nodup) :
+    requirementsDrifted sels labels = .ok (!labelsSatisfy sels labels) := by
+  have hf : Faithful sels := faithful_of_distinct sels (fun s hs => ⟨hr.valid s hs, hx s hs⟩) hnd
+  cases hsat : labelsSatisfy sels labels with
+  | true => exact C15_no_false_requirements_drift sels labels hr hsat
+  | false =>
+    have : ∃ s ∈ sels, k8sMatch s.op s.values (labels.lookup s.key) = false := by
+      unfold labelsSatisfy at hsat
+      have := List.all_eq_false.mp hsat
+      obtain ⟨s, hs, hm⟩ := this
+      exact ⟨s, hs, by simpa using hm⟩
+    obtain ⟨s, hs, hm⟩ := this
+    exact C15_drift_detects_partial sels labels hr s hs hm (Or.inr hf)
+
+def wLabels : Karp.Drift.Labels := [("karpenter.sh/nodepool", "pool-a"), ("topology.kubernetes.io/zone", "z1")]
+
+/-- negation witness 1 (recorded finding C15-unsatisfiable-requirements-read-as-absent): `tier In [gold]` together with
+    `tier In [silver]` is violated by every label set, yet a NodeClaim without the label is not drifted -/
+theorem C15_drift_missed_unsatisfiable :
+    labelsSatisfy [{ key := "tier", op := .in_, values := ["gold"], minValues := none },
+                   { key := "tier", op := .in_, values := ["silver"], minValues := none }] wLabels = false ∧
+    (requirementsDrifted [{ key := "tier", op := .in_, values := ["gold"], minValues := none },
+                         { key := "tier", op := .in_, values := ["silver"], minValues := none }] wLabels).toOption = some false := by decide
+
+/-- negation witness 2 (recorded finding C15-presence-lost-with-notin): `n Gt 2` needs the label, but next to
+    `n NotIn [5]` a NodeClaim without it is not drifted -/
+theorem C15_drift_missed_presence_lost :
+    labelsSatisfy [{ key := "example.com/n", op := .gt, values := ["2"], minValues := none },
+                   { key := "example.com/n", op := .notIn, values := ["5"], minValues := none }] wLabels = false ∧
+    (requirementsDrifted [{ key := "example.com/n", op := .gt, values := ["2"], minValues := none },
+                         { key := "example.com/n", op := .notIn, values := ["5"], minValues := none }] wLabels).toOption = some false := by decide
+
+/-! ## Drift: the sub-reconciler -/
+
+/-- **C15_reconcile_reports** — on a launched NodeClaim, `Drift.Reconcile` sets the Drifted condition whenever the hash
+    differs under the same hash version (reason NodePoolDrifted, which takes precedence) or the labels are not
+    `Compatible` with the NodePool's requirements (reason RequirementsDrifted) — before any provider call, so for every
+    provider answer and error. -/
+theorem C15_reconcile_reports (s : St) (c : Claim) (hl : c.launched = true) (b : Bool)
+    (hreq : requirementsDrifted (s.pool.pool.template.requirements.getD []) c.labels = .ok b)
+    (h : staticDrifted s.pool.ann c.ann = true ∨ b = true) :
+    ∃ c' k, driftReconcile s c = .ok (c', false, k) ∧
+      c'.drifted = some (if staticDrifted s.pool.ann c.ann then Karp.Gen.C15Drift.reasonNodePoolDrifted
+                         else Karp.Gen.C15Drift.reasonRequirementsDrifted) := by
+  have e1 : (Karp.Gen.C15Drift.reasonNodePoolDrifted == "") = false := by decide
+  have e2 : (Karp.Gen.C15Drift.reasonRequirementsDrifted == "") = false := by decide
+  unfold driftReconcile isDrifted
+  simp only [hl, Bool.not_true, Bool.false_eq_true, if_false, hreq, bind, Except.bind, pure, Except.pure]
+  by_cases hs : staticDrifted s.pool.ann c.ann = true
+  · simp only [hs, if_true, e1, Bool.false_eq_true, if_false]
+    exact ⟨_, _, rfl, rfl⟩
+  · have hb : b = true := by rcases h with h | h; exact absurd h hs; exact h
+    simp only [hs, hb, if_true, e2, Bool.false_eq_true, if_false]
+    exact ⟨_, _, rfl, rfl⟩
+
+/-- a NodeClaim that is not launched never carries the condition after a reconcile -/
+theorem C15_not_launched_not_drifted (s : St) (c : Claim) (hl : c.launched = false) :
+    driftReconcile s c = .ok ({ c with drifted := none }, false, false) := by
+  unfold driftReconcile; simp [hl, pure, Except.pure]
+
+/-! ## The hash controller -/
+
+/-- **C15_hash_controller_stamps** — after the hash controller ran on a managed NodePool it carries its current hash and
+    the current hash version; the spec is untouched. -/
+theorem C15_hash_controller_stamps (s : St) (hp : s.pool.present = true) (hm : s.poolManaged = true) :
+    (hashReconcile s).pool.ann = freshAnn s ∧ (hashReconcile s).pool.pool = s.pool.pool := by
+  unfold hashReconcile freshAnn
+  simp [hp, hm]
+
+/-- **C15_migration_never_drifts** (a hash-version bump is never self-inflicted) — a NodeClaim with an older hash version
+    and no Drifted condition is re-stamped with the NodePool's new hash: right after the migration it is not statically
+    drifted, whatever hash it carried before. -/
+theorem C15_migration_never_drifts (h : String) (c : Claim) (hd : c.drifted = none)
+    (hv : c.ann.version ≠ some currentVersion) :
+    staticDrifted { hash := some h, version := some currentVersion } (migrateClaim h c).ann = false := by
+  unfold migrateClaim
+  have : (c.ann.version != some currentVersion) = true := by simpa using hv
+  simp [this, hd, staticDrifted]
+
+/-- a NodeClaim that was already Drifted keeps its old hash (it stays comparable as drifted); one that already carries the
+    current version is not touched at all -/
+theorem C15_migration_keeps (h : String) (c : Claim) :
+    (c.drifted.isSome = true → (migrateClaim h c).ann.hash = c.ann.hash ∧ (migrateClaim h c).drifted = c.drifted) ∧
+    (c.ann.version = some currentVersion → migrateClaim h c = c) := by
+  unfold migrateClaim
+  constructor
+  · intro hd
+    cases hdr : c.drifted with
+    | none => rw [hdr] at hd; simp at hd
+    | some r => by_cases hv : (c.ann.version != some currentVersion) = true <;> simp [hv, hdr]
+  · intro hv; simp [hv]
+
+/-! ## No self-inflicted drift -/
+
+/-- **C15_no_self_drift** (invariant over ALL histories) — take any state in which the NodePool carries its current
+    hash and hash version, the provider reports no drift, and every NodeClaim is stamped with the NodePool's
+    annotations, has no Drifted condition, has labels `Compatible` with the NodePool's requirements and an instance type
+    and offering the provider still lists.  Then along every history — of any length — of hash-controller runs,
+    disruption-controller reconciles of any NodeClaim and clock advances (no edit of the NodePool, of a NodeClaim or of
+    the provider's catalogue), with provider calls failing or not, no NodeClaim is ever reported Drifted: every
+    intermediate state is settled again. -/
+theorem C15_no_self_drift (s : St) (steps : List Step) (hs : Settled s) (hq : ∀ st ∈ steps, quiet st = true) :
+    ∃ out, run s steps = .ok out ∧ ∀ p ∈ out, Settled p.1 ∧ ∀ c ∈ p.1.claims, c.drifted = none := by
+  obtain ⟨out, hrun, hout⟩ := settled_run steps s hs hq
+  exact ⟨out, hrun, fun p hp => ⟨hout p hp, fun c hc => ((hout p hp).claims c hc).2.1⟩⟩
+
+/-- **C15_fresh_claim_settled** — a NodeClaim created from the NodePool (annotations = the NodePool's current hash and
+    version, as `NewNodeClaimTemplate` stamps them; no Drifted condition) whose labels after launch satisfy the
+    NodePool's requirements (Kubernetes reading) and whose instance type / offering are listed, together with the
+    NodePool after the hash controller ran, is a settled state — so `C15_no_self_drift` applies to it. -/
+theorem C15_fresh_claim_settled (s : St) (hp : s.pool.ann = freshAnn s) (hv : s.prov.drift = "")
+    (hc : ∀ c ∈ s.claims, c.ann = freshAnn s ∧ c.drifted = none ∧
+      Readable (s.pool.pool.template.requirements.getD []) c.labels ∧
+      labelsSatisfy (s.pool.pool.template.requirements.getD []) c.labels = true ∧
+      instanceTypeNotFound s.prov.its c.labels s.wellKnown s.reservedLabels = false) : Settled s :=
+  ⟨hp, hv, fun c hcm =>
+    let ⟨h1, h2, h3, h4, h5⟩ := hc c hcm
+    ⟨h1, h2, C15_no_false_requirements_drift _ _ h3 h4, h5⟩⟩
+
+/-- Full statement (what the property demands): the labels of EVERY freshly created and launched NodeClaim satisfy its
+    NodePool's requirements.  It is false for the code as it is in three recorded situations (all replayed end to end,
+    corpus `c15.selfdrift/*`): a template whose own label contradicts its own requirement (hypothesis `htemplate`
+    below); a custom integer label for which `Requirement.Any()` finds no canonical value; and a custom label the
+    NodePool needs present whose presence requirement the scheduler lost next to a pod's `NotIn` (the last two are
+    excluded by hypothesis `hdefined`).  Proved:
+
+    **C15_launch_labels_satisfy_partial** — the labels of a launched NodeClaim are, in order of precedence, the custom
+    labels resolved at creation, the template's labels (with the NodePool / NodeClass labels), and below them the
+    provider's labels (`PopulateNodeClaimDetails`).  If each of the three sources only carries values the NodePool's
+    expressions on that key accept (resolved labels: `C13_resolved_labels_admitted`; provider labels: the provider
+    contract "Create returns labels satisfying the NodeClaim's requirements"; template labels: a consistent NodePool),
+    and every key some expression needs present is defined by one of them, then the final labels satisfy every
+    requirement expression — whatever shadows whatever. -/
+theorem C15_launch_labels_satisfy_partial (sels : List Sel) (templateLabels resolved providerLabels : Karp.Drift.Labels)
+    (htemplate : ∀ s ∈ sels, ∀ v, templateLabels.lookup s.key = some v → k8sMatch s.op s.values (some v) = true)
+    (hresolved : ∀ s ∈ sels, ∀ v, resolved.lookup s.key = some v → k8sMatch s.op s.values (some v) = true)
+    (hprovider : ∀ s ∈ sels, ∀ v, providerLabels.lookup s.key = some v → k8sMatch s.op s.values (some v) = true)
+    (hdefined : ∀ s ∈ sels, k8sMatch s.op s.values none = false →
+      ((resolved.lookup s.key).isSome || (templateLabels.lookup s.key).isSome || (providerLabels.lookup s.key).isSome) = true) :
+    labelsSatisfy sels (populateLabels (Karp.Template.assign templateLabels resolved) providerLabels) = true := by
+  unfold labelsSatisfy
+  rw [List.all_eq_true]
+  intro s hs
+  have hl : (populateLabels (Karp.Template.assign templateLabels resolved) providerLabels).lookup s.key =
+      ((resolved.lookup s.key).or (templateLabels.lookup s.key)).or (providerLabels.lookup s.key) := by
+    unfold populateLabels Karp.Drift.assign Karp.Template.assign
+    rw [List.lookup_append, List.lookup_append]
+  rw [hl]
+  cases h1 : resolved.lookup s.key with
+  | some v => simpa using hresolved s hs v h1
+  | none =>
+    cases h2 : templateLabels.lookup s.key with
+    | some v => simpa using htemplate s hs v h2
+    | none =>
+      cases h3 : providerLabels.lookup s.key with
+      | some v => simpa using hprovider s hs v h3
+      | none =>
+        simp only [Option.or_none]
+        cases hm : k8sMatch s.op s.values none with
+        | true => rfl
+        | false =>
+          have := hdefined s hs hm
+          simp [h1, h2, h3] at this
+
+/-! ## Non-vacuity -/
+
+def wTaint2 : Taint := { key := "gpu", value := "true", effect := "NoExecute" }
+def wA : Template :=
+  { labels := some [("team", "a"), ("tier", "b")], taints := some [wTaint, wTaint2], nodeClassRef := some wRef,
+    requirements := some [wSel], tgp := some 30000000000, expireAfter := some 2592000000000000, expireAfterRaw := some "\"720h\"" }
+def wB : Template :=
+  { labels := some [("tier", "b"), ("team", "a")], taints := some [wTaint2, wTaint], nodeClassRef := some wRef,
+    requirements := none, tgp := some 30000000000, expireAfter := some 2592000000000000, expireAfterRaw := some "\"43200m\"" }
+
+/-- the hypotheses on the primitives are met by the FNV instance (lawful) and by a symbolic instance (lawful and
+    collision-free) -/
+example : Lawful fnvPrims := fnvPrims_lawful
+example : Lawful symPrims ∧ CollisionFree symPrims := ⟨symPrims_lawful, symPrims_collisionFree⟩
+
+/-- a reordered template with different requirements and a different spelling of expireAfter: same up to order … -/
+example : SameUpToOrder wA wB :=
+  ⟨List.Perm.swap _ _ _, OptPerm.refl _, List.Perm.swap _ _ _, OptPerm.refl _, rfl, rfl, rfl⟩
+/-- … the specification says "must be equal", and the real hash values (FNV instance) are equal -/
+example : fingerprintVerdict { template := wA } { template := wB, outside := { weight := some 10 } } = .mustEqual := by decide
+example : hashTemplate fnvPrims wA = hashTemplate fnvPrims wB := by decide
+/-- a changed label value: "must differ", and the real values differ -/
+example : fingerprintVerdict { template := wA } { template := { wA with labels := some [("team", "a"), ("tier", "c")] } } = .mustDiffer := by decide
+example : hashTemplate fnvPrims wA ≠ hashTemplate fnvPrims { wA with labels := some [("team", "a"), ("tier", "c")] } := by decide
+
+/-- the hypotheses of `C15_sensitive_partial` on a concrete pair (terminationGracePeriod 30s → 31s, symbolic primitives) -/
+example : hashTemplate symPrims wA ≠ hashTemplate symPrims { wA with tgp := some 31000000000 } := by
+  apply C15_sensitive_partial symPrims symPrims_lawful symPrims_collisionFree wA _ .tgp
+  · intro g; cases g <;> rfl
+  · rfl
+  · rfl
+  · intro g hg; cases g <;> first | rfl | exact absurd rfl hg
+  · decide
+
+def wSels : List Sel :=
+  [{ key := "team", op := .in_, values := ["a", "b"], minValues := none },
+   { key := "example.com/n", op := .gt, values := ["2"], minValues := none },
+   { key := "example.com/n", op := .notIn, values := ["5"], minValues := none },
+   { key := "tier", op := .doesNotExist, values := [], minValues := none }]
+def wGood : Karp.Drift.Labels := [("karpenter.sh/nodepool", "pool-a"), ("team", "a"), ("example.com/n", "07")]
+
+/-- a readable requirement list (two expressions on one key, four operators) with labels that satisfy it … -/
+example : Readable wSels wGood :=
+  ⟨by decide, by decide, by decide, by decide⟩
+example : labelsSatisfy wSels wGood = true := by decide
+/-- … and labels that violate it through a PRESENT label (the unconditional branch of `C15_drift_detects_partial`) -/
+example : k8sMatch .in_ ["a", "b"] (([("team", "c")] : Karp.Drift.Labels).lookup "team") = false := by decide
+/-- one expression per key: the hypotheses of `C15_drift_detects_one_expression_per_key` on a concrete NodePool -/
+def wSels1 : List Sel :=
+  [{ key := "team", op := .in_, values := ["a", "b"], minValues := none },
+   { key := "example.com/n", op := .gt, values := ["2"], minValues := none },
+   { key := "tier", op := .doesNotExist, values := [], minValues := none }]
+example : (∀ s ∈ wSels1, noExtreme s = true) ∧ (wSels1.map (fun s => normalizeKey s.key)).Nodup ∧ Readable wSels1 wGood :=
+  ⟨by decide, by decide, ⟨by decide, by decide, by decide, by decide⟩⟩
+/-- `Faithful` holds, e.g., for a single `In` expression -/
+example : Faithful [wSel] := by
+  intro k r hl habs s hs hk
+  simp only [List.mem_singleton] at hs
+  subst hs
+  have hk' : k = "team" := by rw [← hk]; decide
+  subst hk'
+  have : r = selReq wSel := by
+    have : (Reqs.add [] ([wSel].map selReq)).lookup "team" = some (selReq wSel) := by decide
+    rw [this] at hl; exact (Option.some.inj hl).symm
+  subst this
+  exact absurd habs (by decide)
+
+/-- a settled state: one launched NodeClaim stamped with the NodePool's current annotations -/
+def wPool : Pool := { template := { wA with requirements := some wSels } }
+def wState : St :=
+  { pool := { name := "pool-a", pool := wPool, ann := { hash := some wPool.hashString, version := some currentVersion } },
+    claims := [{ name := "nc-0", labels := wGood ++ [("node.kubernetes.io/instance-type", "it-a")],
+                 ann := { hash := some wPool.hashString, version := some currentVersion } }],
+    prov := { its := [{ name := "it-a", offerings := [[]] }] } }
+
+example : Settled wState :=
+  ⟨rfl, rfl, by
+    intro c hc
+    simp only [wState, List.mem_singleton] at hc
+    subst hc
+    exact ⟨rfl, rfl, by rfl, by decide⟩⟩
+
+/-- the migration theorem's hypotheses: an un-drifted NodeClaim with an old hash version -/
+example : staticDrifted { hash := some "new", version := some currentVersion }
+    (migrateClaim "new" { name := "nc", labels := [], ann := { hash := some "old", version := some "v2" } }).ann = false := by decide
+
 end Karp.C15
